@@ -16,7 +16,7 @@ LEVEL = 'model_checking'
 RULE = ('every tree shape with <= E entries (files / empty dirs, up to isomorphism) plus one-at-a-time '
         'substitution of each leaf by special kinds and adversarial names; x root spellings (omitted, ., ./, '
         'relative, trailing slash, sub/.., absolute, symlinked ancestor, several disjoint roots with own options) '
-        'x every mindepth/maxdepth in {absent,0..D+2} x {default,bfs,dfs}; every readdir permutation of directories with <= 4 entries; a case is non-trivial when the '
+        'x every mindepth/maxdepth in {absent,0..D+2} x {default,bfs,dfs}; every readdir permutation of directories with <= 4 entries; one 3300-entry-wide and one 64-level-deep tree; a case is non-trivial when the '
         'expected row set is neither empty nor the whole tree, or when the ordering law has >= 2 levels to order')
 MC_NOTE = ('state = one closed configuration (tree, roots, window, mode, readdir order); transitions = '
            'directory-entry events compared with the walk model; every model trace is compared with the real binary')
@@ -127,6 +127,11 @@ def cases_for(tree, tier, special=False):
 
 def groups(tier, seed):
     shapes = core.tree_shapes(EMAX[tier])
+    # scale layer: a very wide and a very deep tree (internal queues, buffers and caps have sizes too)
+    yield {'tree': 'wide', 'layer': 'scale', 'cases': [{'roots': [['dot', a, b_, m]]} for m in (None, 'bfs', 'dfs')
+                                                       for (a, b_) in ((None, None), (2, None), (None, 1), (2, 2))]}
+    yield {'tree': 'deep', 'layer': 'scale', 'cases': [{'roots': [['dot', a, b_, m]]} for m in (None, 'dfs')
+                                                       for (a, b_) in ((None, None), (60, None), (None, 59), (30, 31))]}
     # names that are not valid UTF-8 (distinct names may print identically; rows are compared as multisets of lossy text)
     nu = {'d\udcff': D({'one': F(1), 'sub': D({'deep': F(1)})}), 'd\udcfe': D({'two': F(1)}), 'plain': D({'three': F(1)}),
           'f\udcff': F(1), 'f\udcfe': F(1), '\udcff\udcfe': D({'\udc80': F(1)})}
@@ -221,8 +226,24 @@ def root_arg(spec, holder):
     raise ValueError(r)
 
 
+def scale_tree(name):
+    if name == 'wide':
+        t = {'d%04d' % i: D({'f': F(1)}) for i in range(3000)}
+        t.update({'x%03d' % i: F(1) for i in range(300)})
+        return t
+    t = cur = {}
+    for i in range(64):
+        nxt = {}
+        cur['l%02d' % i] = D(nxt)
+        cur['f%02d' % i] = F(1)
+        cur = nxt
+    return t
+
+
 def eval_group(env, group, tier):
     tree = group['tree']
+    if isinstance(tree, str):
+        tree = scale_tree(tree)
     jail = group.get('jail')
     holder = env.newdir('g')
     os.mkdir(os.path.join(holder, 'real'))
@@ -278,7 +299,7 @@ def eval_case(env, tree, holder, troot, topdirs, case, layer, jail_tree):
         else:
             o = env.run(argv, cwd=cwd)
         base = troot
-    full = dict(case, tree=tree)
+    full = dict(case, tree=tree if len(tree) < 100 and 'l00' not in tree else ('wide' if len(tree) > 100 else 'deep'))
     res = {'case': full, 'layer': layer, 'trans': sum(len(e) for e in expected) + 1}
     exp_all = sorted(p for e in expected for p, _ in e)
     ntotal = len(jail_tree and list(core.walk_tree(jail_tree)) or list(core.walk_tree(tree)))
